@@ -702,8 +702,16 @@ class Node:
                 item_value_node.yaml_node.start_mark = item_key.start_mark
                 item_value_node.yaml_node.end_mark = item_value.end_mark
                 item_value_node.set_attribute(value_attribute, ynode)
+            else:
+                # change a copy of the item, as it may be referred to
+                # from elsewhere too
+                item_value_node = Node(yaml.MappingNode(
+                    item_value.tag, list(item_value.value),
+                    item_value.start_mark, item_value.end_mark,
+                    item_value.flow_style))
 
-            item_value_node.set_attribute(key_attribute, item_key.value)
+            # the key with its type and position
+            item_value_node.set_attribute(key_attribute, copy(item_key))
             object_list.append(item_value_node.yaml_node)
         seq_node = yaml.SequenceNode('tag:yaml.org,2002:seq', object_list,
                                      start_mark, end_mark)
@@ -837,7 +845,12 @@ class Node:
             else:
                 new_value.append((key_node, value_node))
 
-        attr_node.yaml_node.value = new_value
+        # put a new mapping in place, the old one may be referred to from
+        # elsewhere too
+        old_node = attr_node.yaml_node
+        self.set_attribute(attribute, yaml.MappingNode(
+            old_node.tag, new_value, old_node.start_mark, old_node.end_mark,
+            old_node.flow_style))
 
     def map_attribute_to_index(
             self,
@@ -975,11 +988,21 @@ class Node:
                 key_key = yaml.ScalarNode(
                         'tag:yaml.org,2002:str', key_attribute,
                         key_node.start_mark, key_node.end_mark)
-                new_mapping.value.append((key_key, copy(key_node)))
+                # add to a copy of the item, as it may be referred to
+                # from elsewhere too
+                new_mapping = yaml.MappingNode(
+                        new_mapping.tag,
+                        new_mapping.value + [(key_key, copy(key_node))],
+                        new_mapping.start_mark, new_mapping.end_mark,
+                        new_mapping.flow_style)
 
             new_value.append((key_node, new_mapping))
 
-        attr_node.yaml_node.value = new_value
+        # likewise for the mapping itself
+        old_node = attr_node.yaml_node
+        self.set_attribute(attribute, yaml.MappingNode(
+            old_node.tag, new_value, old_node.start_mark, old_node.end_mark,
+            old_node.flow_style))
 
     # Functions for sequences
 
